@@ -158,6 +158,10 @@ def rule_shape(ctx):
         f = fx.fn(spec["key"])
         fn = Fn(f)
         pans = [(kind, det, sp, bi) for kind, det, sp, bi in panic_sites(f) if kind == "panic" and bi in fn.reach]
+        # the wildcard arm may call a helper of the workspace that never returns (`-> !`: the call has no return block)
+        for bi, t in fn.calls():
+            if t.get("target") is None and bi in fn.reach and (t.get("callee") or "").split("::")[0] in fx.crates:
+                pans.append(("panic", "diverging helper %s" % t.get("callee_name"), t["sp"], bi))
         if not pans:
             # no panicking arm any more: nothing can reach it
             res.inst(spec["key"] + ":no-panic-arm", fn.file, fn.line, "ok", "no panicking wildcard left")
